@@ -39,6 +39,10 @@ CHECKS['C16'] = dict(engine='histmc', category='exploration', section='3/C16',
    technique='exhaustive finite product position x atom (and ordered atom pairs, with deletes) executed on the real GripServer handlers and GraphInterface, compared with the reference graph model through the full observation battery',
    text='Nine positions (graph name, vertex gid/label, edge gid/label/from/to, property name, property value) x 29 hostile strings (separator and control bytes, invalid UTF-8, reserved words used internally, prefixes of one another, unicode, 300 bytes) or 17 JSON values (nesting, empty containers, numeric extremes, null), each through the server handlers and directly; then every ordered pair of distinct atoms at the identifier positions (all positions when thorough), with and without deleting the first. Accepted => the element reads back identical through lookup, listings, adjacency, label scans/lists and nothing else in any graph changes; rejected => nothing changes at all.',
    note='Acceptance itself is the implementation\'s choice. kvgraph over memkv. Refused strings are not used as probe ids (they cannot be stored); stale label-index entries after deletes are charged to C03 only.')
+CHECKS['C01'] = dict(engine='progenum', category='exploration', section='3/C01',
+   technique='bounded-exhaustive enumeration of all well-typed statement sequences up to a length bound x fixture graphs, executed through the production compiler and pipeline and compared with a reference interpreter; all ill-typed sequences up to length 3 must be rejected',
+   text='Every well-typed program of length <=3 (quick; <=4 plus length 5 over a 26-instance core alphabet when thorough) over 6 starts and 59 step instances (moves with 3 label lists, hasLabel/hasId/hasKey, 10 has-conditions incl. reserved, nested and mark keys, as/select, fields, render, path, unwind, distinct, count, limit/skip/range) runs on 6 fixture graphs (empty, single vertex, self loop + parallel edges + isolated vertex, edges with absent endpoints, nested/mixed/missing data, shared edge labels in both directions) through kvgraph.Compiler() and pipeline.Start/Convert; the multiset of rows must equal the reference interpreter written from the documentation; truncation steps are judged by count arithmetic and sub-multiset. Crash-isolated workers attribute a process-killing panic to the exact program.',
+   note='refsem is the trusted reading of the docs; combinations the docs leave undefined (reads of undefined marks, path after fields/unwind, distinct/unwind over missing or non-list fields, truncation in the middle of a program) are skipped and counted in the evidence.')
 NA_REASON = 'check not built yet in this session (planned in DESIGN.md section 3); nothing is claimed for it'
 
 m = {
